@@ -20,14 +20,21 @@ def extend(history, step):
     all_ops = history["ops"]
     cfg = history["cfg"]
     out = []
-    steps = [step] + [i for i in range(step + 1, min(len(all_ops), step + 40))
-                      if all_ops[i]["k"] in ("sync", "enter", "timer")][:9]
+    sync_calls = {o["c"] for o in all_ops if o["k"] == "sync"}
+    # the disagreeing event, then the events after it in which a parked Synchronize
+    # call is released (a worker that waited is typically handed a task there),
+    # then other events that let a call run
+    later = [i for i in range(step + 1, len(all_ops))]
+    woken = [i for i in later if all_ops[i]["k"] in ("enter", "timer") and all_ops[i].get("c") in sync_calls][:10]
+    other = [i for i in later if all_ops[i]["k"] in ("sync", "enter", "timer") and i not in woken][:4]
+    steps = [step] + woken + other
     for n, st in enumerate(steps):
         ops = all_ops[:st + 1]
         calls = sorted({o["c"] for o in ops if "c" in o})
         nxt = (max(calls) + 1) if calls else 0
         jumps = set()
-        for k in ("update", "nowait", "pq", "busy", "idle", "worker"):
+        for k in ("nowait", "pq", "idle", "worker"):
+            jumps.add(cfg[k] - 1_000)
             jumps.add(cfg[k] - 1_000_000)
             if n == 0:
                 jumps.add(cfg[k] + 1_000_000)
